@@ -167,9 +167,15 @@ def fixed_instances():
     for ops in ([{"scope": ["a"], "name": "b"}, {"scope": [], "name": "a__b"}],
                 [{"scope": ["g", 0], "name": "r"}, {"scope": ["g", "0"], "name": "r"}],
                 [{"scope": [1], "name": "x"}, {"scope": ["1"], "name": "x"}, {"scope": [], "name": "1__x"}],
-                [{"scope": [], "name": "mux"}, {"scope": ["mux"], "name": "mux"}]):
+                [{"scope": [], "name": "mux"}, {"scope": ["mux"], "name": "mux"}],
+                # chains: the name a colliding path is moved to may itself be somebody's flattened path
+                [{"scope": ["a"], "name": "b"}, {"scope": [], "name": "a__b"}, {"scope": ["a"], "name": "b__0"}],
+                [{"scope": ["a"], "name": "b__0"}, {"scope": ["a"], "name": "b"}, {"scope": [], "name": "a__b"},
+                 {"scope": [], "name": "a__b__0"}],
+                [{"scope": [], "name": "mux"}, {"scope": [], "name": "mux__0"}, {"scope": ["mux"], "name": "0"}]):
         out.append(bridge_instance(None, {"aw": 5, "dw": 8, "ops": [dict(o, width=8, offset=None) for o in ops]}))
-    for fields in ({"a": {"b": 4}, "a__b": 4}, {"a": [4, 4], "a__0": 4, "a__1": 2}, {"x": {"0": 3}, "y": 1, "x__0": 3}):
+    for fields in ({"a": {"b": 4}, "a__b": 4}, {"a": [4, 4], "a__0": 4, "a__1": 2}, {"x": {"0": 3}, "y": 1, "x__0": 3},
+                   {"a": {"b": 2, "b__0": 2}, "a__b": 2}, {"a__b__0": 1, "a": {"b": 2, "b__0": 2}, "a__b": 2}):
         out.append(named_register_instance(fields))
     return out
 
